@@ -224,5 +224,9 @@ func (h *Handler) HandleDownload(w http.ResponseWriter, r *http.Request) {
 	d.Settings.GatewayCredentialMethod = 1
 	d.Settings.GatewayUsageMethod = 1
 
-	http.ServeContent(w, r, fn, time.Now(), strings.NewReader(d.String()))
+	// the file is generated for this request alone (fresh token, next host of the rotation):
+	// there is no stored document of which a byte range or a "not modified" could be served
+	r.Header.Del("Range")
+	r.Header.Del("If-Range")
+	http.ServeContent(w, r, fn, time.Time{}, strings.NewReader(d.String()))
 }
